@@ -19,6 +19,7 @@ import PdfVerif.Lemmas.CcittBound
 import PdfVerif.Model.CcittStream
 import PdfVerif.Lemmas.CcittSpecTables
 import PdfVerif.Lemmas.CcittParams
+import PdfVerif.Lemmas.CcittPolarity
 
 namespace PdfVerif.Props.C19
 open PdfVerif PdfVerif.Ccitt PdfVerif.Gen PdfVerif.Spec
@@ -599,5 +600,47 @@ example : ccittfaxdecode (some (-1)) (some ((3 : Nat) : Int)) false false
 example : feedFlat { initSt 3 false false with acc := .horiz1, node := runTrie true } 3 0
     (List.replicate 8 false ++ [true, true]) = .error .invalidData :=
   unassigned_code_rejected _ _ (by decide) (by decide +kernel) 3 _
+
+/-- **BlackIs1, on EVERY input** (conforming or damaged data, any K, Columns, EncodedByteAlign): the flag
+changes nothing but the polarity of the output.  Either both settings fail with the same error, or
+there is ONE list of rows such that the two results are its packings with white = 1 and with black = 1
+(`T6.packImage`, the specification's packing) — `reversed` is read by `output_line` only. -/
+theorem blackIs1_only_polarity (K cols : Option Int) (al : Bool) (data : List UInt8) :
+    (∃ e, ccittfaxdecode K cols al false data = .error e ∧ ccittfaxdecode K cols al true data = .error e) ∨
+    (∃ rows : List (List Bool), ccittfaxdecode K cols al false data = .ok (T6.packImage false rows) ∧
+      ccittfaxdecode K cols al true data = .ok (T6.packImage true rows)) := by
+  unfold ccittfaxdecode
+  by_cases hK : K ≠ some CcittCode.kGroup4
+  · left; exact ⟨.valueError, by rw [if_pos hK], by rw [if_pos hK]⟩
+  · simp only [hK, if_false]
+    by_cases hc : cols.getD CcittCode.columnsDefault ≤ 0
+    · left; exact ⟨.unmodelled, by rw [if_pos hc], by rw [if_pos hc]⟩
+    · simp only [hc, if_false]
+      have h0 : Twin [] (initSt (cols.getD CcittCode.columnsDefault).toNat al false)
+          (initSt (cols.getD CcittCode.columnsDefault).toNat al true) := ⟨rfl, rfl, rfl⟩
+      have hf := feedBytes_twin data h0
+      generalize feedBytes (initSt (cols.getD CcittCode.columnsDefault).toNat al false) data = ra at hf
+      generalize feedBytes (initSt (cols.getD CcittCode.columnsDefault).toNat al true) data = rb at hf
+      cases ra with
+      | error e =>
+        cases rb with
+        | error e' => left; exact ⟨e, rfl, by rw [show e' = e from hf.symm]⟩
+        | ok b => exact hf.elim
+      | ok a =>
+        cases rb with
+        | error e' => exact hf.elim
+        | ok b =>
+          obtain ⟨L, h1, h2, h3⟩ := hf
+          right
+          refine ⟨L, ?_, ?_⟩
+          · simp only [h2, T6.packImage, packLine_fun]
+          · simp only [h3, T6.packImage, packLine_fun]
+
+/-- Non-vacuity on damaged data: the all-ones bytes of the `decode_total` example, both polarities. -/
+example :
+    (ccittfaxdecode (some (-1)) (some 3) false false [0xFF, 0x12, 0x34]).toOption =
+      some (T6.packImage false (List.replicate 9 [true, true, true])) ∧
+    (ccittfaxdecode (some (-1)) (some 3) false true [0xFF, 0x12, 0x34]).toOption =
+      some (T6.packImage true (List.replicate 9 [true, true, true])) := by decide +kernel
 
 end PdfVerif.Props.C19
